@@ -153,6 +153,41 @@ Definition nop_no_load (o : nop) : bool :=
 Inductive pstep := PKey (k : key) | PIdx (i : nat).
 Definition path := list pstep.
 
+(* one operation on a plain container, and at a path inside plain data (the SPEC of handles) *)
+Definition plain_nop (v : val) (o : nop) : option (res val * val) :=
+  match v, o with
+  | VL l, OL lo => let (r, l') := plain_lop l lo in Some (r, VL l')
+  | VD d, OD dop_ => let (r, d') := plain_dop d dop_ in Some (r, VD d')
+  | _, _ => None
+  end.
+
+Fixpoint plain_at (p : path) (o : nop) (v : val) : option (res val * val) :=
+  match p with
+  | [] => plain_nop v o
+  | PKey k :: p' =>
+      match v with
+      | VD d => match alookup k d with
+                | Some c => match plain_at p' o c with
+                            | Some (r, c') => Some (r, VD (dict_set d k c'))
+                            | None => None
+                            end
+                | None => None
+                end
+      | _ => None
+      end
+  | PIdx i :: p' =>
+      match v with
+      | VL l => match nth_error l i with
+                | Some c => match plain_at p' o c with
+                            | Some (r, c') => Some (r, VL (set_nth l i c'))
+                            | None => None
+                            end
+                | None => None
+                end
+      | _ => None
+      end
+  end.
+
 (* comparison of results and contents used by the correspondence checks *)
 Definition res_eqb (a b : res val) : bool :=
   match a, b with
